@@ -216,7 +216,7 @@ inductive UOut where
   | fuel
   | fail
   | ok (b : Bnd) (seen : Seen)
-  deriving Repr, Inhabited
+  deriving Repr, DecidableEq, Inhabited
 
 def uniL (step : Nat → Nat → Bnd → Seen → UOut) : List (Nat × Nat) → Bnd → Seen → UOut
   | [], b, s => .ok b s
